@@ -91,6 +91,12 @@ Marker ==
   /\ NoFlag
   /\ UNCHANGED <<sc, out, scan, rem, written, run, provided, requested, faulted, nscen, nok, expect, unused>>
 
+\* ---- C16 inside the library: while it works on the output the clone has opened a file of its own (a temporary file, also an unnamed one)
+SideFileEv ==
+  /\ Step("side_file")
+  /\ FlagSoft("C16 ONLYOUTPUT: the clone opened a file other than its output (a temporary or side file) while writing the output")
+  /\ UNCHANGED <<sc, out, scan, rem, written, run, provided, requested, faulted, nscen, nok, expect, unused>>
+
 \* ---- what the reader reports about the archive (C17: opened, reported ...) against what the encoder put in
 AccessorsEv ==
   /\ Step("accessors")
@@ -218,7 +224,7 @@ DoneEv ==
      ELSE /\ skipping' = TRUE /\ UNCHANGED <<verdicts, nverdicts>> /\ nok' = nok + 1
   /\ UNCHANGED <<sc, out, scan, rem, written, run, provided, requested, faulted, nscen, expect, unused>>
 
-TNext == Scenario \/ Skip \/ Marker \/ AccessorsEv \/ CliEv \/ ReadAtEv \/ ReadEv \/ WriteEv \/ ReorderedEv \/ SeedChunkEv \/ ReadChunksEv
+TNext == Scenario \/ Skip \/ Marker \/ SideFileEv \/ AccessorsEv \/ CliEv \/ ReadAtEv \/ ReadEv \/ WriteEv \/ ReorderedEv \/ SeedChunkEv \/ ReadChunksEv
          \/ RunEndEv \/ RestartEv \/ DoneEv
 TSpec == TInit /\ [][TNext]_<<vars, tvars>>
 
